@@ -23,7 +23,7 @@ import sys
 
 HERE = os.path.dirname(os.path.abspath(__file__))
 REPO = os.environ.get('VERIF_REPO', '/repo')
-LEAN = os.path.join(HERE, '..', 'lean')
+LEAN = os.environ.get('VERIF_LEAN_DIR') or os.path.join(HERE, '..', 'lean')
 
 MODULES = ['Mercury', 'Venus', 'Earth', 'Mars', 'Jupiter', 'Saturn', 'Uranus', 'Neptune']
 CH36 = ['inferior_conjunction', 'superior_conjunction', 'conjunction', 'opposition',
